@@ -205,7 +205,7 @@ SINGLE_LINE_FORMS = {"line", "rsdoc", "rsinner", "hash", "sqlline", "trail", "ht
 END_SPELLINGS = ["</block>", "</ block >", "< /block>", "</block >"]
 
 
-def render(items, ext, variant=0, crlf=False, multibyte=False, tag_attrs=None, bare=False, endsp=None, mixed_md=False):
+def render(items, ext, variant=0, crlf=False, multibyte=False, tag_attrs=None, bare=False, endsp=None, mixed_md=False, container=None):
     """-> dict(name, text, starts=[{name,line,col,item,pos}], comments={item: (start_byte, end_byte)},
                lines=[...])  Items: [{k: code|str|cmt, tags: [...]}]"""
     fl = forms(ext)
@@ -218,6 +218,8 @@ def render(items, ext, variant=0, crlf=False, multibyte=False, tag_attrs=None, b
     md = ext in ("md", "markdown")
     # (Markdown used to pair link-reference comments and HTML comments on separate stacks -- finding M1,
     # repaired in /repo -- so Markdown files now mix all four comment forms freely.)
+    if container:
+        fl = ["xml", "mxml"]     # the extent of a [//]: node inside a container is the grammar's business (gray)
     for n, it in enumerate(items, 1):
         if it["k"] == "code":
             out_lines.append(code_line(ext, n))
@@ -282,6 +284,13 @@ def render(items, ext, variant=0, crlf=False, multibyte=False, tag_attrs=None, b
             spans[n] = (base, c0, base + len(flines) - 1, len(flines[-1]), incl_nl)
             if md:
                 out_lines.append("")
+    if container:
+        # Markdown container: the whole file inside one list item ("- " then two-space continuation)
+        # or one block quote ("> " on every line); every position moves right by two columns
+        out_lines = [(("- " if k == 0 else "  ") if container == "li" else "> ") + l for k, l in enumerate(out_lines)]
+        for s_ in starts:
+            s_["col_chars"] += 2
+        spans = {n_: (l0, c0 + 2, l1, c1 + 2, inc) for n_, (l0, c0, l1, c1, inc) in spans.items()}
     nl = "\r\n" if crlf else "\n"
     text = nl.join(out_lines) + nl
     # byte offsets of line starts
